@@ -85,12 +85,13 @@ def initial_state(ex, table, specs, contract, fi, cls):
     return st, self_v, args
 
 
-def gen_obligations(table, specs, contract, cls):
+def gen_obligations(table, specs, contract, cls, deadline=None):
     """-> (Executor with .obligs, meta)"""
     fi = table.get_function(contract.qual)
     if fi is None:
         raise Unsupported(f'function {contract.qual} not found in the source tree (renamed or removed?)')
     ex = Executor(table, specs, task_cls=cls, prefix='')
+    ex.deadline = deadline
     st, self_v, args = initial_state(ex, table, specs, contract, fi, cls)
     ex.task_self = self_v
     fr = Frame(fi, cls, 0)
@@ -421,6 +422,14 @@ def run_task(table, specs, contract, cls, both=False):
             if status == 'unknown':
                 open_.append((r, o))
             res['results'].append(r)
+        failing = [r for r in res['results'] if r.status in ('refuted', 'unknown')]
+        if failing:
+            # (0) bounded unrolling: look for a REAL failing input of any clause of this contract
+            try:
+                refute_unrolled(table, specs, contract, cls, res['results'], meta)
+            except Unsupported as e:
+                res['notes'].append(f'bounded unrolling not possible: {e}')
+        open_ = [(r, o) for r, o in open_ if r.status == 'unknown']
         if open_:
             # first look for a genuine counter-model on small structures (fast, quantifier free) ...
             refute_bounded(table, specs, contract, cls, [r for r, o in open_])
@@ -482,6 +491,56 @@ def refute_bounded(table, specs, contract, cls, open_results):
             r.reason += f'; bounded search unsupported: {e}'
     finally:
         sym.BOUND, sym.SIDE = old_bound, old_side
+
+
+UNROLL_BOUND = int(os.environ.get('PYVC_UNROLL_BOUND', '3'))
+UNROLL_BUDGET_S = int(os.environ.get('PYVC_UNROLL_BUDGET_S', '60'))
+
+
+def refute_unrolled(table, specs, contract, cls, results, meta):
+    """Bounded model checking of the whole contract: structures of size <= K, loops unrolled (no invariants).
+    Every model found is an execution of the real function body from a legal entry state that violates a
+    clause: it is attached as replay to the result of that clause (added if the clause had been 'proved'
+    from a loop invariant that does not hold)."""
+    old = (sym.BOUND, sym.SIDE, sym.UNROLL)
+    sym.BOUND, sym.SIDE, sym.UNROLL = UNROLL_BOUND, [], True
+    try:
+        ex, m2 = gen_obligations(table, specs, contract, cls, deadline=time.time() + UNROLL_BUDGET_S)
+        side = list(sym.SIDE)
+        found = 0
+        t_end = time.time() + UNROLL_BUDGET_S
+        for o in ex.obligs:
+            if found >= 3 or time.time() > t_end:
+                break
+            if o.kind in ('call_pre', 'reentrancy'):
+                continue
+            status, dt, backend, model, reason = discharge(ex, o, use_alt=False, timeout_ms=20000, extra=side)
+            if status != 'refuted':
+                continue
+            found += 1
+            target = None
+            for r in results:
+                if r.name == o.name and r.status != 'refuted':
+                    target = r
+                    break
+            if target is None:
+                for r in results:
+                    if r.name == o.name and not getattr(r, 'replay', None):
+                        target = r
+                        break
+            if target is None:
+                target = Result(o.name, 'refuted', dt, backend, path=o.path, kind=o.kind, clause=o.info.get('clause', ''),
+                                props=o.info.get('props', []), fn=meta['fn'])
+                results.append(target)
+            target.status = 'refuted'
+            target.backend = f'z3-5.1 (bounded unrolling, sizes <= {UNROLL_BOUND}: real execution)'
+            target.path = list(o.path)
+            target.seconds += dt
+            target.model = model_summary(ex, o, model)
+            target.replay = build_replay(ex, o, model, contract, cls)
+            target.reason = ''
+    finally:
+        sym.BOUND, sym.SIDE, sym.UNROLL = old
 
 
 def build_replay(ex, o, model, contract, cls):
